@@ -1,6 +1,7 @@
 (* Model of the bitmap font code of icy_engine (executable Gallina only, no proofs).
 
-   Mirrors, in src/fonts.rs (after the `fix:` commits of the C17 branch):
+   Mirrors, in src/fonts.rs (the merged tree: the `fix:` commits of C17 plus C10's c9c7437, which replaced every
+   `char::from_u32_unchecked(i)` by the checked `char::from_u32(i)`: a code that is not a char has no glyph):
      glyphs_from_u8_data   -> glyph_loop / glyphs_from_u8_data
      BitFont::create_8     -> create_8            BitFont::from_basic      -> from_basic
      BitFont::load_psf1    -> load_psf1           BitFont::load_plain_font -> load_plain_font
@@ -24,9 +25,9 @@
      site 1  data[k..k+4] in load_psf2 / from_bytes (header shorter than the field)
      site 2  data[2], data[3] in load_psf1
      site 3  data[headersize..] in load_psf2
-     site 4  get_glyph(..).unwrap() in to_psf2_bytes (glyph missing)
-     site 5  char::from_u32_unchecked on a code >= 0xD800 (debug precondition check: abort)
-     site 6  vec![0; height as usize] with a negative height (capacity overflow) in convert_to_u8_data
+     (sites 4 and 5 — `get_glyph(..).unwrap()` in to_psf2_bytes and `char::from_u32_unchecked` on a code >= 0xD800 —
+      no longer exist: c9c7437 writes an empty glyph for a missing one and uses the checked conversion)
+     site 6  vec![0; height as usize] with a negative height (capacity overflow) in to_psf2_bytes / convert_to_u8_data
      site 7  data[0..4] / data[4..4+size] in read_utf8_encoded_string (IcyDraw font chunk)
    Error classes (`Err e`): 3 UnsupportedVersion, 4 LengthMismatch, 5 UnknownFontFormat,
      21 invalid custom font dcs, 22 cannot decode base64, 23 cannot load bit font from dcs. *)
@@ -45,7 +46,10 @@ Definition E_DCS_BASE64 : N := 22.
 Definition E_DCS_FONT : N := 23.
 
 (* fn glyphs_from_u8_data(font_height, data): `while font_height > 0 && data.len() >= font_height && ch < MAX_GLYPHS`
-   n is data.len(); the fuel is the initial data length (every iteration consumes font_height >= 1 bytes) *)
+   n is data.len(); the fuel is the initial data length (every iteration consumes font_height >= 1 bytes).
+   The body inserts the glyph `if let Some(ch) = char::from_u32(ch as u32)`: under the loop guard ch < MAX_GLYPHS
+   that conversion always succeeds (FontProofs.max_glyphs_are_chars, which fails to compile if the extracted
+   MAX_GLYPHS ever exceeds 0xD800), so every iteration appends the glyph of the next code. *)
 Fixpoint glyph_loop (fuel : nat) (h n : N) (data : list N) (ch : N) : list (list N) :=
   match fuel with
   | O => []
@@ -101,34 +105,39 @@ Definition from_bytes (data : list N) : res font :=
   | _ => Panic 1
   end.
 
-(* `for i in 0..self.length { … get_glyph(from_u32_unchecked(i)).unwrap() … }`: the first `length` glyphs *)
-Definition glyph_range (len : Z) (gl : list (list N)) : res (list (list N)) :=
-  if (len <=? 0)%Z then Ok [] else
-  let n := Z.to_N len in
-  if lenN gl <? n then (if lenN gl <? MAX_GLYPHS then Panic 4 else Panic 5)
-  else if MAX_GLYPHS <? n then Panic 5
-  else Ok (firstn (N.to_nat n) gl).
+(* `char::from_u32(i)`: None for the surrogates 0xD800..=0xDFFF and for values above 0x10FFFF *)
+Definition is_char (c : N) : bool := (c <? 55296) || ((57343 <? c) && (c <=? 1114111)).
 
-Definition to_psf2_bytes (f : font) : res (list N) :=
-  do gl <- glyph_range (f_len f) (f_glyphs f);
-  Ok (u32le PSF2_MAGIC ++ u32le 0 ++ u32le PSF2_HEADERSIZE ++ u32le 0 ++ u32le (as_u32 (f_len f))
-      ++ u32le (as_u32 (f_h f)) ++ u32le (as_u32 (f_h f)) ++ u32le (as_u32 (f_w f)) ++ concat gl).
-
-(* `for ch in 0..self.length`: the glyph, or `height` zero bytes when the glyph is missing;
-   k = codes still to emit, gl = glyphs from the current code on *)
-Fixpoint raw_from (gl : list (list N)) (k : nat) (h : Z) : res (list N) :=
+(* The glyph loop shared by to_psf2_bytes, convert_to_u8_data (and calculate_checksum):
+     for i in 0..self.length {
+         if let Some(glyph) = char::from_u32(i as u32).and_then(|ch| self.get_glyph(ch)) { out.extend(&glyph.data) }
+         else { out.extend(vec![0; self.size.height as usize]) }
+     }
+   k = codes still to emit, c = the current code, gl = the glyphs from code c on. A code that is not a char, or has
+   no glyph, contributes `height` zero bytes; `vec![0; negative as usize]` is a capacity overflow (Panic 6). *)
+Definition empty_glyph (h : Z) : res (list N) :=
+  if (h <? 0)%Z then Panic 6 else Ok (repeat 0 (Z.to_nat h)).
+Fixpoint glyph_bytes (gl : list (list N)) (k : nat) (c : N) (h : Z) : res (list N) :=
   match k with
   | O => Ok []
   | S k' =>
-    match gl with
-    | g :: t => do r <- raw_from t k' h; Ok (g ++ r)
-    | [] => if (h <? 0)%Z then Panic 6 else do r <- raw_from [] k' h; Ok (repeat 0 (Z.to_nat h) ++ r)
-    end
+    do cur <- match gl with
+              | g :: _ => if is_char c then Ok g else empty_glyph h
+              | [] => empty_glyph h
+              end;
+    do r <- glyph_bytes (tl gl) k' (c + 1) h;
+    Ok (cur ++ r)
   end.
-Definition convert_to_u8_data (f : font) : res (list N) :=
-  if (f_len f <=? 0)%Z then Ok [] else
-  let n := Z.to_N (f_len f) in
-  if MAX_GLYPHS <? n then Panic 5 else raw_from (f_glyphs f) (N.to_nat n) (f_h f).
+(* `for i in 0..self.length` over an i32: nothing for length <= 0 *)
+Definition all_glyph_bytes (f : font) : res (list N) :=
+  if (f_len f <=? 0)%Z then Ok [] else glyph_bytes (f_glyphs f) (Z.to_nat (f_len f)) 0 (f_h f).
+
+Definition to_psf2_bytes (f : font) : res (list N) :=
+  do body <- all_glyph_bytes f;
+  Ok (u32le PSF2_MAGIC ++ u32le 0 ++ u32le PSF2_HEADERSIZE ++ u32le 0 ++ u32le (as_u32 (f_len f))
+      ++ u32le (as_u32 (f_h f)) ++ u32le (as_u32 (f_h f)) ++ u32le (as_u32 (f_w f)) ++ body).
+
+Definition convert_to_u8_data (f : font) : res (list N) := all_glyph_bytes f.
 
 (* ---------------------------------------------------------------------------------- decimal numbers *)
 (* `format!("{font_slot}")` for a usize: at most 20 digits *)
